@@ -658,6 +658,8 @@ def s_range_next(E, a, info):
     start, end = r.fields
     if E.branch(s_ult(start, end)):
         E.loop_iter('range')
+        if not is_sym(start) and start >= getattr(E, 'loop_bound', 64):
+            raise Unsupported('counted loop exceeds the unrolling bound of %d iterations' % getattr(E, 'loop_bound', 64))
         E.write(a[0], Agg('Range', None, (s_add(start, 1), end)))
         return some(start)
     return NONE
@@ -665,8 +667,8 @@ def s_range_next(E, a, info):
 
 def _loop_iter(self, what):
     self.loop_iters = getattr(self, 'loop_iters', 0) + 1
-    if self.loop_iters > getattr(self, 'loop_bound', 64):
-        raise Unsupported('counted-loop bound exceeded (%s)' % what)
+    if self.loop_iters > 500000:
+        raise Unsupported('loop safety bound exceeded (%s)' % what)
 
 
 I.Engine.loop_iter = _loop_iter
